@@ -17,15 +17,73 @@ spec fn regex_wf(re: Regex) -> bool {
     arena_wf(re.arena@) && nid(re.root_id) < re.arena@.len() && !cell_preset(re.follow_cache)
 }
 
-spec fn label(re: Regex, p: u32) -> Inp { inp_label(re.input_from_position@[p as int]) }
+/// the automaton symbol of a regex item: its own text, description and `||` level; a within-word
+/// item becomes the automaton id the cache holds for its regex id
+spec fn lab(input: RegexInput, c: Map<RegexId, DFAId>) -> Inp {
+    match input {
+        RegexInput::Literal { literal, description, fallback_level, span } => Inp::Literal { literal, description, fallback_level },
+        RegexInput::Subword { subword_regex_id, fallback_level, span } => Inp::Subword { subdfa: c[subword_regex_id], fallback_level },
+        RegexInput::Nonterminal { nonterm, fallback_level, span } => Inp::Star,
+        RegexInput::Command { cmd, zsh_compadd, fallback_level, span } =>
+            if zsh_compadd { Inp::Compadd { cmd, fallback_level } } else { Inp::Command { cmd, fallback_level } },
+    }
+}
 
-spec fn step(re: Regex, s: ISet<u32>, a: Inp, t: u32, h: u32) -> bool {
-    s.contains(t) && (t as int) < re.input_from_position@.len() && label(re, t) == a && follows_code(re.arena@, nid(re.root_id), t, h)
+/// the cache knows the automaton of this item (trivially so unless it is a within-word item)
+spec fn key_cached(input: RegexInput, c: Map<RegexId, DFAId>) -> bool {
+    match input {
+        RegexInput::Subword { subword_regex_id, fallback_level, span } => c.contains_key(subword_regex_id),
+        _ => true,
+    }
+}
+
+spec fn keys_cached(re: Regex, c: Map<RegexId, DFAId>, upto: int) -> bool {
+    forall|p: int| 0 <= p < upto && p < re.input_from_position@.len() ==> key_cached(#[trigger] re.input_from_position@[p], c)
+}
+
+/// the cache only grows
+spec fn cache_le(c: Map<RegexId, DFAId>, c2: Map<RegexId, DFAId>) -> bool {
+    forall|k: RegexId| #[trigger] c.contains_key(k) ==> c2.contains_key(k) && c2[k] == c[k]
+}
+
+proof fn lemma_lab_mono(input: RegexInput, c: Map<RegexId, DFAId>, c2: Map<RegexId, DFAId>)
+    requires key_cached(input, c), cache_le(c, c2)
+    ensures lab(input, c2) == lab(input, c), key_cached(input, c2)
+{
+}
+
+/// every cached automaton id names an automaton of the pool
+spec fn cache_in_range(c: Map<RegexId, DFAId>, n: int) -> bool {
+    forall|k: RegexId| #[trigger] c.contains_key(k) ==> (c[k].0 as int) < n
+}
+
+/// what from_input needs of the pool of within-word regexes: each is a regex dfa_from_regex can
+/// take, and the within-word items inside it point into the pool again
+spec fn regex_pool_ok(pool: Seq<Regex>) -> bool {
+    forall|i: int| 0 <= i < pool.len() ==> regex_ready(#[trigger] pool[i], pool.len() as int)
+}
+
+spec fn regex_ready(re: Regex, npool: int) -> bool {
+    regex_wf(re) && re.input_from_position@.len() <= u32::MAX
+    && (forall|p: int| 0 <= p < re.input_from_position@.len() ==> input_ok(#[trigger] re.input_from_position@[p], npool))
+}
+
+spec fn input_ok(input: RegexInput, npool: int) -> bool {
+    match input {
+        RegexInput::Subword { subword_regex_id, fallback_level, span } => (subword_regex_id.0 as int) < npool,
+        _ => true,
+    }
+}
+
+spec fn label(re: Regex, c: Map<RegexId, DFAId>, p: u32) -> Inp { lab(re.input_from_position@[p as int], c) }
+
+spec fn step(re: Regex, c: Map<RegexId, DFAId>, s: ISet<u32>, a: Inp, t: u32, h: u32) -> bool {
+    s.contains(t) && (t as int) < re.input_from_position@.len() && label(re, c, t) == a && follows_code(re.arena@, nid(re.root_id), t, h)
 }
 
 /// the positions the symbol a leads to from the set s
-spec fn target(re: Regex, s: ISet<u32>, a: Inp) -> ISet<u32> {
-    ISet::new(|h: u32| exists|t: u32| #[trigger] step(re, s, a, t, h))
+spec fn target(re: Regex, c: Map<RegexId, DFAId>, s: ISet<u32>, a: Inp) -> ISet<u32> {
+    ISet::new(|h: u32| exists|t: u32| #[trigger] step(re, c, s, a, t, h))
 }
 
 spec fn nonempty(s: ISet<u32>) -> bool { exists|h: u32| s.contains(h) }
@@ -35,81 +93,81 @@ spec fn inj(sid: Map<ISet<u32>, u32>) -> bool {
 }
 
 /// the pool holds exactly the distinct symbols of the positions
-spec fn pool_ok(re: Regex, pool: Seq<Inp>, upto: int) -> bool {
+spec fn pool_ok(re: Regex, c: Map<RegexId, DFAId>, pool: Seq<Inp>, upto: int) -> bool {
     pool_wf(pool)
-    && (forall|p: int| 0 <= p < upto && p < re.input_from_position@.len() ==> pool.contains(#[trigger] inp_label(re.input_from_position@[p])))
-    && (forall|i: int| 0 <= i < pool.len() ==> has_source(re, upto, #[trigger] pool[i]))
+    && (forall|p: int| 0 <= p < upto && p < re.input_from_position@.len() ==> pool.contains(#[trigger] lab(re.input_from_position@[p], c)))
+    && (forall|i: int| 0 <= i < pool.len() ==> has_source(re, c, upto, #[trigger] pool[i]))
 }
 
 /// some position before `upto` carries the symbol x
-spec fn has_source(re: Regex, upto: int, x: Inp) -> bool {
-    exists|p: int| 0 <= p < upto && p < re.input_from_position@.len() && inp_label(#[trigger] re.input_from_position@[p]) == x
+spec fn has_source(re: Regex, c: Map<RegexId, DFAId>, upto: int, x: Inp) -> bool {
+    exists|p: int| 0 <= p < upto && p < re.input_from_position@.len() && lab(#[trigger] re.input_from_position@[p], c) == x
 }
 
 /// the row of state sid[s] is right for the first `upto` symbols and empty for the others
-spec fn row_ok(re: Regex, sid: Map<ISet<u32>, u32>, trans: Map<u32, Map<InpId, u32>>, pool: Seq<Inp>, s: ISet<u32>, upto: int) -> bool {
+spec fn row_ok(re: Regex, c: Map<RegexId, DFAId>, sid: Map<ISet<u32>, u32>, trans: Map<u32, Map<InpId, u32>>, pool: Seq<Inp>, s: ISet<u32>, upto: int) -> bool {
     sid.contains_key(s) && trans.contains_key(sid[s])
-    && (forall|i: int| 0 <= i < pool.len() ==> #[trigger] cell_ok(re, sid, trans[sid[s]], pool, s, i, upto))
+    && (forall|i: int| 0 <= i < pool.len() ==> #[trigger] cell_ok(re, c, sid, trans[sid[s]], pool, s, i, upto))
 }
 
-spec fn cell_ok(re: Regex, sid: Map<ISet<u32>, u32>, row: Map<InpId, u32>, pool: Seq<Inp>, s: ISet<u32>, i: int, upto: int) -> bool {
-    let t = target(re, s, pool[i]);
+spec fn cell_ok(re: Regex, c: Map<RegexId, DFAId>, sid: Map<ISet<u32>, u32>, row: Map<InpId, u32>, pool: Seq<Inp>, s: ISet<u32>, i: int, upto: int) -> bool {
+    let t = target(re, c, s, pool[i]);
     if i < upto && nonempty(t) { sid.contains_key(t) && row.contains_key(id_of(i)) && row[id_of(i)] == sid[t] }
     else { !row.contains_key(id_of(i)) }
 }
 
 /// partial union over the first m positions of the iteration vector
-spec fn part_target(re: Regex, s: ISet<u32>, a: Inp, vec: Seq<&u32>, m: int, h: u32) -> bool {
-    exists|k: int| 0 <= k < m && k < vec.len() && #[trigger] step(re, s, a, *vec[k], h)
+spec fn part_target(re: Regex, c: Map<RegexId, DFAId>, s: ISet<u32>, a: Inp, vec: Seq<&u32>, m: int, h: u32) -> bool {
+    exists|k: int| 0 <= k < m && k < vec.len() && #[trigger] step(re, c, s, a, *vec[k], h)
 }
 
-proof fn lemma_part_target_step(re: Regex, s: ISet<u32>, a: Inp, vec: Seq<&u32>, m: int, h: u32)
+proof fn lemma_part_target_step(re: Regex, c: Map<RegexId, DFAId>, s: ISet<u32>, a: Inp, vec: Seq<&u32>, m: int, h: u32)
     requires 0 <= m < vec.len()
-    ensures part_target(re, s, a, vec, m + 1, h) == (part_target(re, s, a, vec, m, h) || step(re, s, a, *vec[m], h))
+    ensures part_target(re, c, s, a, vec, m + 1, h) == (part_target(re, c, s, a, vec, m, h) || step(re, c, s, a, *vec[m], h))
 {
-    if part_target(re, s, a, vec, m + 1, h) {
-        let k = choose|k: int| 0 <= k < m + 1 && k < vec.len() && #[trigger] step(re, s, a, *vec[k], h);
-        if k < m { assert(part_target(re, s, a, vec, m, h)); }
+    if part_target(re, c, s, a, vec, m + 1, h) {
+        let k = choose|k: int| 0 <= k < m + 1 && k < vec.len() && #[trigger] step(re, c, s, a, *vec[k], h);
+        if k < m { assert(part_target(re, c, s, a, vec, m, h)); }
     }
-    if part_target(re, s, a, vec, m, h) {
-        let k = choose|k: int| 0 <= k < m && k < vec.len() && #[trigger] step(re, s, a, *vec[k], h);
-        assert(part_target(re, s, a, vec, m + 1, h));
+    if part_target(re, c, s, a, vec, m, h) {
+        let k = choose|k: int| 0 <= k < m && k < vec.len() && #[trigger] step(re, c, s, a, *vec[k], h);
+        assert(part_target(re, c, s, a, vec, m + 1, h));
     }
-    if step(re, s, a, *vec[m], h) { assert(part_target(re, s, a, vec, m + 1, h)); }
+    if step(re, c, s, a, *vec[m], h) { assert(part_target(re, c, s, a, vec, m + 1, h)); }
 }
 
 /// the worklist invariant: ids are unique and below the counter, unmarked sets are known, every
 /// marked (processed) set has its complete row, unprocessed ones have none yet
-spec fn wl_inv(re: Regex, sid: Map<ISet<u32>, u32>, trans: Map<u32, Map<InpId, u32>>, um: ISet<ISet<u32>>, next: u32, pool: Seq<Inp>, cur: Option<ISet<u32>>) -> bool {
+spec fn wl_inv(re: Regex, c: Map<RegexId, DFAId>, sid: Map<ISet<u32>, u32>, trans: Map<u32, Map<InpId, u32>>, um: ISet<ISet<u32>>, next: u32, pool: Seq<Inp>, cur: Option<ISet<u32>>) -> bool {
     inj(sid)
     && (forall|s: ISet<u32>| #[trigger] sid.contains_key(s) ==> FIRST_STATE_ID <= sid[s] < next)
     && sid.contains_key(s_first(re.arena@, nid(re.root_id))) && sid[s_first(re.arena@, nid(re.root_id))] == FIRST_STATE_ID
     && (forall|s: ISet<u32>| #[trigger] um.contains(s) ==> sid.contains_key(s) && !trans.contains_key(sid[s]))
-    && (forall|s: ISet<u32>| #[trigger] sid.contains_key(s) && !um.contains(s) && cur != Some(s) ==> row_ok(re, sid, trans, pool, s, pool.len() as int))
+    && (forall|s: ISet<u32>| #[trigger] sid.contains_key(s) && !um.contains(s) && cur != Some(s) ==> row_ok(re, c, sid, trans, pool, s, pool.len() as int))
     && (forall|q: u32| #[trigger] trans.contains_key(q) ==> q < next)
 }
 
 /// one step of the row loop: the effect of handling symbol j of the current state keeps the
 /// worklist invariant and completes cell j of the current row
-proof fn lemma_row_step(re: Regex, sid: Map<ISet<u32>, u32>, tr: Map<u32, Map<InpId, u32>>, um: ISet<ISet<u32>>, next: u32, pool: Seq<Inp>,
+proof fn lemma_row_step(re: Regex, c: Map<RegexId, DFAId>, sid: Map<ISet<u32>, u32>, tr: Map<u32, Map<InpId, u32>>, um: ISet<ISet<u32>>, next: u32, pool: Seq<Inp>,
                         cs: ISet<u32>, id: u32, j: int, tg: ISet<u32>,
                         sid2: Map<ISet<u32>, u32>, tr2: Map<u32, Map<InpId, u32>>, um2: ISet<ISet<u32>>, next2: u32)
     requires
-        wl_inv(re, sid, tr, um, next, pool, Some(cs)), !um.contains(cs), sid.contains_key(cs), sid[cs] == id,
-        row_ok(re, sid, tr, pool, cs, j), 0 <= j < pool.len(), pool.len() <= u32::MAX,
-        tg == target(re, cs, pool[j]),
+        wl_inv(re, c, sid, tr, um, next, pool, Some(cs)), !um.contains(cs), sid.contains_key(cs), sid[cs] == id,
+        row_ok(re, c, sid, tr, pool, cs, j), 0 <= j < pool.len(), pool.len() <= u32::MAX,
+        tg == target(re, c, cs, pool[j]),
         nonempty(tg) ==> (sid.contains_key(tg) ==> sid2 == sid && um2 == um && next2 == next)
             && (!sid.contains_key(tg) ==> sid2 == sid.insert(tg, next) && um2 == um.insert(tg) && next2 == next + 1)
             && tr2 == tr.insert(id, tr[id].insert(id_of(j), sid2[tg])),
         !nonempty(tg) ==> sid2 == sid && um2 == um && next2 == next && tr2 == tr,
     ensures
-        wl_inv(re, sid2, tr2, um2, next2, pool, Some(cs)), !um2.contains(cs), sid2.contains_key(cs), sid2[cs] == id,
-        row_ok(re, sid2, tr2, pool, cs, j + 1),
+        wl_inv(re, c, sid2, tr2, um2, next2, pool, Some(cs)), !um2.contains(cs), sid2.contains_key(cs), sid2[cs] == id,
+        row_ok(re, c, sid2, tr2, pool, cs, j + 1),
 {
     let row = tr[id];
     if !nonempty(tg) {
-        assert forall|i: int| 0 <= i < pool.len() implies #[trigger] cell_ok(re, sid2, tr2[sid2[cs]], pool, cs, i, j + 1) by {
-            assert(cell_ok(re, sid, row, pool, cs, i, j));
+        assert forall|i: int| 0 <= i < pool.len() implies #[trigger] cell_ok(re, c, sid2, tr2[sid2[cs]], pool, cs, i, j + 1) by {
+            assert(cell_ok(re, c, sid, row, pool, cs, i, j));
         }
     } else {
         let row2 = row.insert(id_of(j), sid2[tg]);
@@ -118,23 +176,23 @@ proof fn lemma_row_step(re: Regex, sid: Map<ISet<u32>, u32>, tr: Map<u32, Map<In
         assert forall|s: ISet<u32>| sid.contains_key(s) implies sid2.contains_key(s) && sid2[s] == sid[s] by {}
         assert(sid2.contains_key(tg));
         // the current row
-        assert forall|i: int| 0 <= i < pool.len() implies #[trigger] cell_ok(re, sid2, tr2[sid2[cs]], pool, cs, i, j + 1) by {
-            assert(cell_ok(re, sid, row, pool, cs, i, j));
+        assert forall|i: int| 0 <= i < pool.len() implies #[trigger] cell_ok(re, c, sid2, tr2[sid2[cs]], pool, cs, i, j + 1) by {
+            assert(cell_ok(re, c, sid, row, pool, cs, i, j));
             if i != j {
                 if id_of(i) == id_of(j) { lemma_id_of_inj(i, j); }
-                let t = target(re, cs, pool[i]);
+                let t = target(re, c, cs, pool[i]);
                 if i < j && nonempty(t) { assert(sid.contains_key(t)); }
             }
         }
         // processed rows of other states
-        assert forall|s: ISet<u32>| #[trigger] sid2.contains_key(s) && !um2.contains(s) && Some(cs) != Some(s) implies row_ok(re, sid2, tr2, pool, s, pool.len() as int) by {
+        assert forall|s: ISet<u32>| #[trigger] sid2.contains_key(s) && !um2.contains(s) && Some(cs) != Some(s) implies row_ok(re, c, sid2, tr2, pool, s, pool.len() as int) by {
             assert(sid.contains_key(s) && !um.contains(s));
-            assert(row_ok(re, sid, tr, pool, s, pool.len() as int));
+            assert(row_ok(re, c, sid, tr, pool, s, pool.len() as int));
             assert(sid[s] != id) by { if sid[s] == id { assert(sid[s] == sid[cs]); } }
             assert(tr2[sid2[s]] == tr[sid[s]]);
-            assert forall|i: int| 0 <= i < pool.len() implies #[trigger] cell_ok(re, sid2, tr2[sid2[s]], pool, s, i, pool.len() as int) by {
-                assert(cell_ok(re, sid, tr[sid[s]], pool, s, i, pool.len() as int));
-                let t = target(re, s, pool[i]);
+            assert forall|i: int| 0 <= i < pool.len() implies #[trigger] cell_ok(re, c, sid2, tr2[sid2[s]], pool, s, i, pool.len() as int) by {
+                assert(cell_ok(re, c, sid, tr[sid[s]], pool, s, i, pool.len() as int));
+                let t = target(re, c, s, pool[i]);
                 if nonempty(t) { assert(sid.contains_key(t)); }
             }
         }
@@ -215,11 +273,33 @@ proof fn lemma_acc_full(es: Seq<(&BTreeSet<u32>, &u32)>, sid: Map<ISet<u32>, u32
     }
 }
 
-spec fn subset_ok(re: Regex, dfa: DFA, sid: Map<ISet<u32>, u32>) -> bool {
+proof fn lemma_pool_mono(re: Regex, c: Map<RegexId, DFAId>, c2: Map<RegexId, DFAId>, pool: Seq<Inp>, upto: int)
+    requires pool_ok(re, c, pool, upto), keys_cached(re, c, upto), cache_le(c, c2)
+    ensures pool_ok(re, c2, pool, upto), keys_cached(re, c2, upto)
+{
+    assert forall|p: int| 0 <= p < upto && p < re.input_from_position@.len() implies
+        key_cached(#[trigger] re.input_from_position@[p], c2) && lab(re.input_from_position@[p], c2) == lab(re.input_from_position@[p], c) by {
+        lemma_lab_mono(re.input_from_position@[p], c, c2);
+    }
+    assert forall|i: int| 0 <= i < pool.len() implies has_source(re, c2, upto, #[trigger] pool[i]) by {
+        assert(has_source(re, c, upto, pool[i]));
+        let p = choose|p: int| 0 <= p < upto && p < re.input_from_position@.len() && lab(#[trigger] re.input_from_position@[p], c) == pool[i];
+        assert(lab(re.input_from_position@[p], c2) == pool[i]);
+    }
+}
+
+/// dfa is the subset construction of re, for some numbering of position sets and some assignment
+/// of automaton ids to the within-word regexes; it then accepts what the position automaton accepts
+spec fn is_subset_construction(re: Regex, dfa: DFA) -> bool {
+    exists|sid: Map<ISet<u32>, u32>, c: Map<RegexId, DFAId>| #[trigger] subset_ok(re, c, dfa, sid) && lang_ok(re, c, dfa) && keys_cached(re, c, re.input_from_position@.len() as int)
+        && cache_in_range(c, dfa.subdfas.store@.len() as int)
+}
+
+spec fn subset_ok(re: Regex, c: Map<RegexId, DFAId>, dfa: DFA, sid: Map<ISet<u32>, u32>) -> bool {
     let first = s_first(re.arena@, nid(re.root_id));
-    pool_ok(re, dfa.inputs@, re.input_from_position@.len() as int) && inj(sid)
+    pool_ok(re, c, dfa.inputs@, re.input_from_position@.len() as int) && inj(sid)
     && sid.contains_key(first) && sid[first] == FIRST_STATE_ID && dfa.starting_state == FIRST_STATE_ID
-    && (forall|s: ISet<u32>| #[trigger] sid.contains_key(s) ==> row_ok(re, sid, dfa.transitions@, dfa.inputs@, s, dfa.inputs@.len() as int))
+    && (forall|s: ISet<u32>| #[trigger] sid.contains_key(s) ==> row_ok(re, c, sid, dfa.transitions@, dfa.inputs@, s, dfa.inputs@.len() as int))
     && acc_final(dfa.accepting_states@, sid, re.endmarker_position)
 }
 
